@@ -30,6 +30,8 @@ saw / saved" (values returned by the instrumented action + the savers' keys are 
 user keys are compared), evaluated on the kwargs the executed actions really received:
    getargs values == latest saved values of the source(s)      shape getargs-stale / getargs-group-extra-task-dep
    dependencies == current file_dep (calc additions included), targets == current targets
+   every task returned as task_dep by a calc_dep with visible values has its final report before the
+            dependent's actions start                                   shape calc-task-dep-not-before
    changed >= {file deps that are new or whose content/mtime differs from the last success's view}
             shape changed-empty-when-uptodate-false when an uptodate item (False, run_once, or a result_dep) can be false
             (the known finding), else changed-misses-modified.
@@ -44,8 +46,8 @@ PRE = ('From DoitV Require Import Base Status History Inputs.\nOpen Scope Z_scop
        'Definition FUEL : nat := 60%nat.\n'
        'Definition mkdef fd tg ut setup gas vals res : tdef :=\n'
        '  {| file_dep := fd; targets := tg; uptodate := init_uptodate ut setup gas; act_values := vals; act_result := res |}.\n'
-       'Definition mktask gas setup tdep cdep grp params : itask :=\n'
-       '  {| i_getargs := gas; i_setup := init_setup setup gas; i_task_dep := tdep; i_calc_dep := cdep; i_group := grp; i_params := params |}.\n')
+       'Definition mktask gas setup tdep cdep grp sub params : itask :=\n'
+       '  {| i_getargs := gas; i_setup := init_setup setup gas; i_task_dep := tdep; i_calc_dep := cdep; i_group := grp; i_sub_of := sub; i_params := params |}.\n')
 BASE = 1600000000
 CONTENT = {0: b'aaaa', 1: b'bbbb', 2: b'cc', 3: b'dddd', 4: b''}
 RESULT_MD5 = {hashlib.md5(('res%d' % i).encode()).hexdigest(): i for i in range(8)}
@@ -241,8 +243,9 @@ def def_coq(t):
 def table_coq(tasks, sfx):
     arms = []
     for i, t in enumerate(tasks):
-        arms.append('| %d%%N => mktask %s %s %s %s %s %s' % (i, gas_coq(t['getargs']), nl(t['setup']), nl(t['task_dep']),
-                                                          nl(t['calc_dep']), 'true' if t['group'] else 'false', nl(t['params'])))
+        arms.append('| %d%%N => mktask %s %s %s %s %s %s %s' % (i, gas_coq(t['getargs']), nl(t['setup']), nl(t['task_dep']),
+                                                             nl(t['calc_dep']), 'true' if t['group'] else 'false',
+                                                             'None' if t['sub_of'] is None else '(Some %d%%N)' % t['sub_of'], nl(t['params'])))
     return 'Definition tb%s (n : name) : itask := match n with %s | _ => no_task end.' % (sfx, ' '.join(arms))
 
 
@@ -267,7 +270,7 @@ def cmd_coq(c, tasks):
 
 def model_case(sess, sfx):
     defs = table_coq(sess['tasks'], sfx)
-    expr = 'snd (exec_cmds md5o sizeo current tb%s %d FUEL ([%s]%%N))' % (
+    expr = 'snd (exec_cmds md5o sizeo current icurrent tb%s %d FUEL ([%s]%%N))' % (
         sfx, len(sess['tasks']), '; '.join(cmd_coq(c, sess['tasks']) for c in sess['cmds']))
     return defs, expr
 
@@ -500,17 +503,32 @@ class World:
             if p in ga:
                 s, k = ga[p]
                 if self.tasks[s]['group']:
-                    deps = self.tasks[s]['task_dep']
-                    keys = [self.names[j][len(self.names[s]) + 1:] for j in deps]
+                    # the entries the code is expected to read: the group's task_dep named `<group>:...`, in order
+                    # (dict insertion order); an entry beyond them is paired with 99 below
+                    deps = [j for j in self.tasks[s]['task_dep'] if self.names[j].startswith(self.names[s] + ':')]
+                    deps = deps + [99] * (len(x) - len(deps))
                     out += [p, 4, len(x)]
-                    # entries in the order of the group's task_dep (dict insertion order)
                     for (kk, xx), j in zip(x.items(), deps):
+                        if j == 99:
+                            out += [99] + self.enc_sval(k, xx)
+                            continue
                         out += [j if kk == self.names[j][len(self.names[s]) + 1:] else 99] + self.enc_sval(k, xx)
                 else:
                     out += [p] + self.enc_sval(k, x)
             else:
                 out += [p, 1, mask(self.fileno(q) for q in x)]
         return [n] + out
+
+    def cmd_kw(self, i, fields):
+        """the substituted values of a cmd-action, as the kwargs of a python-action would look"""
+        t = self.live[i]
+        ga = {a for a, _, _ in t['getargs']}
+        kw = {}
+        for fld in fields:
+            code, _, txt = fld.partition('=')
+            p = int(code)
+            kw[pname(p)] = (None if txt == 'None' else int(txt)) if p in ga else txt.split()
+        return kw
 
     def enc_cmd(self, i, fields):
         t = self.live[i]
@@ -563,7 +581,7 @@ def run_session(ctx, sess, out):
                     line = line.strip()
                     if line.startswith('CMD|'):
                         parts = line.split('|')
-                        logged.append(dict(task=parts[1], cmd=parts[2:]))
+                        logged.append(dict(task=parts[1], cmd=parts[2:], kw=w.cmd_kw(w.ids[parts[1]], parts[2:])))
                     elif line:
                         logged.append(json.loads(line))
             obs = dict(rc=rc, events=list(Rec.events), verdicts=list(Rec.verdicts), logged=logged, tasks=Rec.tasks,
@@ -631,7 +649,7 @@ class Shadow:
             for l in obs['logged']:
                 i = w.ids[l['task']]
                 t = live[i]
-                case = dict(session=sess['idx'], run=ri, task=i, spec={k: v for k, v in t.items()}, cmds=sess['cmds'][:60])
+                case = dict(session=sess['idx'], task=i, spec={k: v for k, v in t.items()}, tasks=sess['tasks'], cmds=sess['cmds'], backend=sess['backend'])
                 if 'kw' not in l:
                     continue
                 kw = l['kw']
@@ -678,6 +696,22 @@ class Shadow:
                         src = self.last[cdep].get('calc_file')
                     if src:
                         fd |= {f for f in range(16) if src >> f & 1}
+                # ---- task_dep returned by a calc task: finished before this task's actions started
+                evs = obs['events']
+                my_exec = [n for n, (e, tn, _) in enumerate(evs) if e == 'execute' and tn == l['task']]
+                for cdep in t['calc_dep']:
+                    cmask = None
+                    if names[cdep] in succeeded:
+                        cmask = dict(live[cdep]['values']).get(3)
+                    elif cdep in self.last and any(e == 'uptodate' and tn == names[cdep] for e, tn, _ in evs):
+                        cmask = self.last[cdep].get('calc_task')
+                    for j in ([j for j in range(16) if cmask >> j & 1] if cmask else []):
+                        fin = [n for n, (e, tn, _) in enumerate(evs) if tn == names[j] and e in ('success', 'uptodate', 'failure', 'ignore')]
+                        if my_exec and not (fin and fin[0] < my_exec[0]):
+                            out.violations.append(dict(what='task %s returned by the calc_dep %s as task_dep had not finished when %s was executed' % (names[j], names[cdep], l['task']),
+                                                       shape='calc-task-dep-not-before', case=case))
+                        else:
+                            out.count('calc_dep:returned-task-dep-finished-first')
                 if 'dependencies' in kw and 'dependencies' not in ga:
                     if {w.fileno(p) for p in kw['dependencies']} != fd or len(kw['dependencies']) != len(fd):
                         out.violations.append(dict(what='`dependencies` %s differ from the current file_dep %s' % (kw['dependencies'], sorted(fd)), shape='dependencies-differ', case=case))
@@ -721,6 +755,7 @@ class Shadow:
                         fd = None
                     self.last[i] = dict(values={('u%d' % k): x for k, x in t['values'] if k < 2},
                                         calc_file=dict(t['values']).get(2) if t['kind'] == 'calc' else None,
+                                        calc_task=dict(t['values']).get(3) if t['kind'] == 'calc' else None,
                                         view={f: obs['fsview'][f] for f in (fd if fd is not None else t['file_dep']) if f in obs['fsview']},
                                         ck=obs['ck'])
                     if fd is None:
@@ -777,7 +812,7 @@ def run(ctx):
     out = Outcome()
     out.rule = ('a run of a session counts once per (session, run) when some task with getargs was executed with values, '
                 'or some executed task received a non-empty `changed`, or a calc_dep result extended `dependencies`')
-    nsess = ctx.n(70, 400)
+    nsess = ctx.n(120, 600)
     cases, metas = [], []
     for idx in range(nsess):
         sess = gen_session(ctx.rng, idx)
@@ -843,6 +878,41 @@ def run(ctx):
     return out
 
 
+def thaw(x):
+    """JSON turned the tuples of a session into lists"""
+    if isinstance(x, list):
+        return [thaw(y) for y in x]
+    if isinstance(x, dict):
+        return {k: thaw(v) for k, v in x.items()}
+    return x
+
+
+def thaw_task(t):
+    t = dict(t)
+    t['uptodate'] = [tuple(u) for u in t['uptodate']]
+    t['values'] = [tuple(kv) for kv in t['values']]
+    t['getargs'] = [tuple(g) for g in t['getargs']]
+    return t
+
+
 def replay(ctx, payload):
-    print(json.dumps(payload, indent=1, default=str)[:4000])
-    return 0
+    """re-executes the session of a violation replay file on the real code and judges it again"""
+    case = payload.get('case') or {}
+    if 'tasks' not in case:
+        print(json.dumps(payload, indent=1, default=str)[:4000])
+        return 1
+    cmds = []
+    for c in case['cmds']:
+        c = list(c)
+        if c[0] == 'SetDef' and len(c) > 2:
+            c[2] = thaw_task(c[2])
+        cmds.append(tuple(c))
+    sess = dict(idx=0, tasks=[thaw_task(t) for t in case['tasks']], cmds=cmds, backend=case.get('backend', 'json'))
+    out = Outcome()
+    ints, runs, w = run_session(ctx, sess, out)
+    judge_session(sess, w, runs, out)
+    shapes = sorted({v['shape'] for v in out.violations})
+    for v in out.violations[:5]:
+        print('%s: %s' % (v['shape'], v['what']))
+    print('replayed: %d run(s), violation shapes now: %s' % (len(runs), shapes))
+    return 1 if payload.get('shape') in shapes else 0
